@@ -24,6 +24,8 @@ type Clause struct {
 	Idx   int // ordinal among clauses of same kind
 	Line  int
 	File  string
+	InScope  bool // call-site assertion attached only where its identifiers are in scope
+	Attached int
 }
 
 type Contract struct {
@@ -48,6 +50,7 @@ type Contract struct {
 	NoCover  bool
 	Opaque   bool // never auto-inline
 	External bool // explicitly external: havoc
+	EffOnly  bool // carries only effect declarations: no VCs are generated for it
 }
 
 func (ct *Contract) byKind(kind string) []*Clause {
@@ -394,6 +397,9 @@ func parseContractFile(path, pkgPath string) ([]*Contract, error) {
 		case "external":
 			cur.External = true
 			continue
+		case "effectsonly":
+			cur.EffOnly = true
+			continue
 		case "trusted":
 			cur.Trusted = true
 			continue
@@ -451,6 +457,10 @@ func parseContractFile(path, pkgPath string) ([]*Contract, error) {
 				return nil, fail(fmt.Errorf("%s NAME: EXPR", cl.Kind))
 			}
 			cl.Name = strings.TrimSpace(cl.Text[:i])
+			if strings.HasSuffix(cl.Name, " inscope") {
+				cl.Name = strings.TrimSpace(strings.TrimSuffix(cl.Name, " inscope"))
+				cl.InScope = true
+			}
 			e, err := parseSpecExpr(cl.Text[i+1:])
 			if err != nil {
 				return nil, fail(err)
